@@ -393,6 +393,12 @@ class Real(object):
             it = wrapped(); self.keep.append(it)
             feature('branch:iter-%s' % ('nested' if core.local.db_context_counter > 0 else 'top'))
             for st in steps:
+                b = st.get('before')
+                if b is not None:                 # the consumer's own session on this thread while the generator is suspended
+                    feature('branch:gen-consumer-session-%s' % ('read' if b == 'read' else 'write'))
+                    with db_session:
+                        if b == 'read': self.run({'k': 'observe'})
+                        else: self.W(tag=b['write'])
                 r = st.get('resume', 'next')
                 feature('branch:gen-resume-%s' % (r if isinstance(r, str) else 'throw'))
                 try:
@@ -441,7 +447,7 @@ class Real(object):
         self.fail = [x for x in case.get('env', {}).get('commit_fail', [])]
         out = 'ret'
         try:
-            with watchdog(20):
+            with watchdog(6):
                 self.run(case['prog'])
         except InvalidConfig:
             for it in self.keep:
@@ -613,6 +619,7 @@ def rand_iter(rng, base):
         st['fin'] = 'yield' if (not last and r < 0.8) or (last and r < 0.2) else ('ret' if r < 0.9 else {'raise': rng.choice(RAISABLE)})
         rr = rng.random()
         st['resume'] = 'next' if i == 0 or rr < 0.85 else ('close' if rr < 0.92 else {'throw': rng.choice(RAISABLE)})
+        if i > 0 and rng.random() < 0.3: st['before'] = rng.choice(['read', {'write': base + 3 * i + 1}])
         steps.append(st)
         if st['fin'] != 'yield': break
     return {'k': 'iter', 'o': o, 'steps': steps, 'async': rng.random() < 0.4}
@@ -841,6 +848,65 @@ def manual_grid(ctx, rng):
     return cases
 
 
+def suspend_grid(ctx, rng):
+    """wrapped generators / coroutines whose first segment writes and then {nothing, flush(), commit()} before it yields;
+    while suspended the consumer runs {nothing, a read-only db_session, a writing db_session} on the same thread; the
+    second segment writes (optionally flushes) and returns or raises"""
+    cases = []
+    combos = list(itertools.product([[], [1, 2]], ['none', 'flush', 'commit'], [None, 'read', {'write': 77}], ['none', 'flush'],
+                                    ['ret', {'raise': 'u0'}, {'raise': 'u2'}], [False, True]))
+    if not ctx.thorough: combos = rng.sample(combos, 90) + [c for c in combos if c[0] and c[1] == 'flush' and c[2] == 'read' and not c[5]]
+    for A, mode0, before, mode1, fin, is_async in combos:
+        o = {'sid': next(SID)}
+        o.update(mk_pred(rng, 'allowed', rng.choice(['default', 'list']), classes=['U2'])); o.update(mk_pred(rng, 'retryable', 'default'))
+        if rng.random() < 0.2: o['_strict'] = True
+        if rng.random() < 0.15: o['_immediate'] = True
+        steps = [{'writes': list(A), 'commit': mode0 == 'commit', 'late': [], 'flush': mode0 == 'flush', 'fin': 'yield', 'resume': 'next'},
+                 {'writes': [11], 'commit': False, 'late': [], 'flush': mode1 == 'flush', 'fin': fin, 'resume': 'next', 'before': before}]
+        prog = {'k': 'iter', 'o': o, 'steps': steps, 'async': is_async}
+        spec = {'kind': 'generator', 'suspend': True, 'A': list(A), 'mode0': mode0, 'before': before, 'fin': fin}
+        cases.append({'prog': prog, 'env': {'should_retry': SHOULD_RETRY, 'tx': TX, 'commit_fail': []}, 'spec': spec})
+    return cases
+
+
+def oracle_suspend(ctx, case, obs):
+    """C18 for wrapped generators: either the suspension is refused with TransactionError and nothing is committed, or
+    what the body committed itself stays, the consumer's own session is committed, and the rest of the body's changes are
+    committed exactly when it ends normally"""
+    spec = case['spec']
+    inp = {'prog': strip(case['prog']), 'env': case['env'], 'spec': spec}
+    key0 = 'C18:generator:suspend-'
+    A = spec['A']; dirty = bool(A) and spec['mode0'] != 'commit'
+    rows = obs['raw_rows']; out = obs['out']
+    leak_checks(ctx, inp, obs, key0)
+    if obs['counter'] != 0 or obs['session'] or obs['pending_caches'] or obs.get('lock_held'):
+        ctx.violation('session state left behind (counter=%s, db_session set=%s, caches=%s, transaction lock held=%s)'
+                      % (obs['counter'], obs['session'], obs['pending_caches'], obs.get('lock_held')), inp, observed=obs, key=key0 + 'leak')
+    if dirty:
+        if out != {'raise': 'genSuspendDirty'}:
+            ctx.violation('the generator suspended with uncommitted changes %s (mode %s): the suspension was not refused with TransactionError (outcome %s)'
+                          % (A, spec['mode0'], out), inp, observed=obs, key=key0 + 'not-refused')
+        if rows:
+            ctx.violation('rows %s are committed although the generator never ended normally' % rows, inp, observed=obs,
+                          expected=[], key=key0 + 'commit-after-failure')
+        return
+    own = list(A) if spec['mode0'] == 'commit' else []
+    cons = [spec['before']['write']] if isinstance(spec['before'], dict) else []
+    ok = spec['fin'] == 'ret'
+    expected = sorted(own + cons + ([11] if ok else []))
+    if rows != expected:
+        what = ('the generator raised after resumption but rows %s are committed (expected %s)' if not ok else
+                'the generator ended normally but the database holds %s (expected %s)') % (rows, expected)
+        ctx.violation(what, inp, observed=obs, expected=expected, key=key0 + ('commit-after-failure' if not ok else 'lost-or-foreign-writes'))
+    want = 'ret' if ok else {'raise': spec['fin']['raise']}
+    if out != want:
+        ctx.violation('the generator body ended with %s but %s came out' % (want, out), inp, observed=obs, key=key0 + 'other-outcome')
+    saws = [t for t in obs['trace'] if isinstance(t, list)]
+    if spec['before'] == 'read' and saws and saws[0] != sorted(own):
+        ctx.violation('the consumer\'s read-only session saw %s while the committed state was %s' % (saws[0], sorted(own)), inp,
+                      observed=obs, key=key0 + 'consumer-saw-uncommitted')
+
+
 def object_flush_grid(ctx, rng):
     """row writes whose FIRST statement of the session is a per-object `obj.flush()` after create / update / delete (and the
     same writes flushed by flush(), by a query, or not at all), then the outcome: for every session flavour (default
@@ -998,7 +1064,21 @@ def run_cases(ctx, real, cases, kind):
     pend = Pending(ctx)
     todo = []
     for case in cases:
-        obs = real.execute(case)
+        try:
+            obs = real.execute(case)
+        except BaseException as e:
+            # an exception escaping from the real code outside the program proper (cleanup, read-back): a verdict, not a crash
+            if isinstance(e, KeyboardInterrupt): raise
+            msg = 'the real code raised %s outside the program (state reset / read-back after it): %s' % (type(e).__name__, str(e)[:200])
+            inp = {'prog': strip(case['prog']), 'env': case['env']}
+            if 'spec' in case:
+                inp['spec'] = case['spec']
+                pend.violation(msg, inp, key='C18:%s:engine-escape' % case['spec']['kind'])
+            else: ctx.divergence(msg, inp)
+            ctx.count('engine-escape')
+            try: real.force_clean()
+            except BaseException: pass
+            continue
         if obs is None:
             ctx.count('invalid-config-skipped'); continue
         todo.append((case, obs))
@@ -1010,7 +1090,7 @@ def run_cases(ctx, real, cases, kind):
         if 'attempts' in obs: ctx.count('attempts:%d' % obs['attempts'])
         if obs['ncommit']: ctx.count('real-commits:%d' % obs['ncommit'])
         if mod is not None: compare(ctx, case, obs, mod)
-        if 'spec' in case: (oracle_manual if case['spec'].get('manual') else oracle)(pend, case, obs)
+        if 'spec' in case: (oracle_manual if case['spec'].get('manual') else oracle_suspend if case['spec'].get('suspend') else oracle)(pend, case, obs)
     pend.flush()
 
 
@@ -1084,7 +1164,8 @@ def gen_grid(ctx, rng):
         o.update(mk_pred(rng, 'retryable', 'default'))
         w1 = [1, 2] if (mc1 or rng.random() < 0.3) else []
         steps = [{'writes': w1, 'commit': mc1, 'late': late1 if rng.random() < 0.4 else [], 'fin': fin1, 'resume': 'next'},
-                 {'writes': [11], 'commit': mc2, 'late': [], 'flush': rng.random() < 0.5, 'fin': fin2, 'resume': res2},
+                 {'writes': [11], 'commit': mc2, 'late': [], 'flush': rng.random() < 0.5, 'fin': fin2, 'resume': res2,
+                  'before': rng.choice([None, None, 'read', {'write': 88}])},
                  {'writes': [21], 'commit': False, 'late': [], 'fin': 'ret', 'resume': 'next'}]
         prog = {'k': 'iter', 'o': o, 'steps': steps, 'async': rng.random() < 0.5}
         env = {'should_retry': SHOULD_RETRY, 'tx': TX, 'commit_fail': cf}
@@ -1324,6 +1405,7 @@ def run_all(ctx, real):
     run_cases(ctx, real, fixed, 'fixed')
     run_cases(ctx, real, grid(ctx, rng), 'grid')
     run_cases(ctx, real, gen_grid(ctx, rng), 'generator-grid')
+    run_cases(ctx, real, suspend_grid(ctx, rng), 'generator-suspend-grid')
     run_cases(ctx, real, link_grid(ctx, rng), 'm2m-link-grid')
     run_cases(ctx, real, object_flush_grid(ctx, rng), 'object-flush-grid')
     run_cases(ctx, real, manual_grid(ctx, rng), 'manual-commit-grid')
